@@ -132,7 +132,7 @@ func SingleMain(id, tier string, seed int64, space string, index uint64, verbose
 	if lim == 0 {
 		lim = 4
 	}
-	if os.Getenv("VERIF_NO_RLIMIT") == "" {
+	if os.Getenv("VERIF_NO_RLIMIT") == "" && lim > 0 {
 		v := uint64(lim) << 30
 		syscall.Setrlimit(syscall.RLIMIT_AS, &syscall.Rlimit{Cur: v, Max: v})
 	}
